@@ -40,9 +40,11 @@ func verifC20SchedWorkflow(steps int) string {
 
 // enc = 0: partial-order encoding (time stamps per atomic block); enc = 1: step-indexed
 // encoding (one symbolic goroutine id per step) — the two are diffed on the small instance.
-func HarnessC20Schedule(files, steps, cpus, enc int) {
+// fail = 1: every shellcheck run prints something that is not JSON, so the rule returns a fatal
+// error and LintFiles returns it: even then no tool goroutine may be unfinished at the return.
+func HarnessC20Schedule(files, steps, cpus, enc, fail int) {
 	if verifIsNative() {
-		verifC20NativeSchedule()
+		verifC20NativeSchedule(fail == 1)
 		return
 	}
 	verifSetNumCPU(cpus)
@@ -65,14 +67,18 @@ func HarnessC20Schedule(files, steps, cpus, enc int) {
 	verifOverride("(*os/exec.Cmd).Output", verifC20SchedOutput)
 	verifOverride("(*os/exec.Cmd).CombinedOutput", verifC20SchedOutput)
 	verifC20 = verifC20Cmd{}
-	verifC20JSON.fail, verifC20JSON.n = false, 0
+	verifC20JSON.fail, verifC20JSON.n = fail == 1, 0
 	verifOverride("encoding/json.Unmarshal", verifC20Unmarshal)
 	l := &Linter{projects: NewProjects(), cwd: "/r", out: nil, shellcheck: "shellcheck", pyflakes: "pyflakes"}
 	verifTraceStart()
 	errs, err := l.LintFiles(args, nil)
 	verifTraceEvent("return")
-	verifCheck(err == nil, "lint-failed")
-	verifCheck(len(errs) == 0, "unexpected-diagnostics")
+	if fail == 1 {
+		verifCheck(err != nil, "tool-failure-or-garbage-silently-dropped")
+	} else {
+		verifCheck(err == nil, "lint-failed")
+		verifCheck(len(errs) == 0, "unexpected-diagnostics")
+	}
 	verifReach("linted")
 	verifScheduleCheck(cpus, enc)
 }
